@@ -181,8 +181,11 @@ func trieReplay(args []string) error {
 		add := func(class, what string) {
 			if class == "asbuilt" {
 				rep.AsBuilt++
+				if rep.AsBuilt > 10 {
+					return // a handful of as-built samples is enough; never let them crowd out violations
+				}
 			}
-			if len(rep.Mismatches) < *maxMis {
+			if len(rep.Mismatches) < *maxMis+10 {
 				rep.Mismatches = append(rep.Mismatches, tMismatch{List: c.List, Class: class, What: what,
 					Expected: map[string]any{"flagged": c.Flagged, "pairs": c.Pairs, "asbuilt": c.AsBuilt}, Observed: obs})
 			}
